@@ -93,6 +93,13 @@ def log_line(b, obj, dist, s, weighted, rng, flags, directed=False):
     rec = {"dist": dist, "s": list(s), "weighted": weighted}
     try:
         sv = threshold_value(dist, s, rng)
+        if dist == "jaccard" and s[0] < s[1] and rng.random() < 0.3:
+            # a threshold a hair above p/q: the similarities of these inputs are fractions with denominators <= 12, none of
+            # them lies in (p/q, p/q + 1/(1000 q)], so every threshold inside that gap selects the pairs ABOVE p/q; the code
+            # gets p/q + 1e-10, the specification (1000 p + 1) / (1000 q)
+            sv = s[0] / s[1] + 1e-10
+            rec["s"] = [1000 * s[0] + 1, 1000 * s[1]]
+            rec["just_above"] = list(s)
         with quiet():
             if directed:
                 g, table = directed_line_graph(obj, distance=dist, s=sv, weighted=weighted)
@@ -228,6 +235,12 @@ def random_dir_keys(n, rng):
             rest = [x for x in range(1, n + 1) if x not in T]
             if rest:
                 kk.add((T[:rng.randint(1, len(T))], tuple(sorted(rng.sample(rest, rng.randint(1, min(2, len(rest))))))))
+        elif r < 0.65:
+            # the quantifier does not ask for disjoint source and target sets: a node on both sides, next to a hyperedge with the
+            # same source set (or the same target set)
+            kk.add((S, tuple(sorted(set(T[:1]) | {S[0]}))))
+            if rng.random() < 0.5:
+                kk.add((tuple(sorted(set(S[:1]) | {T[0]})), T))
     return sorted(kk)
 
 
